@@ -307,12 +307,22 @@ func (v *Validator) getActionsInSet(uids []types.EntityUID) []types.EntityUID {
 }
 
 func (v *Validator) isActionDescendant(actionUID, ancestorUID types.EntityUID) bool {
+	return v.isActionDescendantFrom(actionUID, ancestorUID, map[types.EntityUID]struct{}{})
+}
+
+// isActionDescendantFrom visits every action group once: without the visited set a hierarchy in which groups share
+// parents (a ladder of diamonds) is walked once per path, which is exponential in its depth.
+func (v *Validator) isActionDescendantFrom(actionUID, ancestorUID types.EntityUID, visited map[types.EntityUID]struct{}) bool {
+	if _, seen := visited[actionUID]; seen {
+		return false
+	}
+	visited[actionUID] = struct{}{}
 	action := v.schema.Actions[actionUID]
 	for parent := range action.Entity.Parents.All() {
 		if parent == ancestorUID {
 			return true
 		}
-		if v.isActionDescendant(parent, ancestorUID) {
+		if v.isActionDescendantFrom(parent, ancestorUID, visited) {
 			return true
 		}
 	}
